@@ -43,9 +43,9 @@ CHECKS = {
    note="Trusted: TLC; Fraction -> float conversion. Tightness of generic curves is only bounded by the witness spacing; arcs with generic rotation and unequal radii: witnesses only.",
    ref="4 (C08), 3.6, 3.8"),
  'C09': dict(
-   technique="TLA+ lattice models (Bezier.tla split/reverse identities, ArcLattice.tla Reverse/Crop, TParam.tla) model-checked with TLC; the model's exact split control points and lattice crops replayed through reversed/split/cropped of segments and paths",
+   technique="TLA+ lattice models (Bezier.tla split/reverse identities, ArcLattice.tla Reverse/Crop, TParam.tla) model-checked with TLC; the model's exact split control points and lattice crops replayed through reversed/split/cropped of segments and paths; TLA+ state machine of Path.cropped (Crop.tla: locate / first / middle loops / last, design vs transcription of the code) model-checked with TLC against the declarative piece list, every model case replayed into Path.cropped on realised polylines and cyclic polygons",
    text="TLC checks SplitReparam, SplitMeets, RevIdentity on the bi-degree unisolvent grid, ReverseOK and CropOK for every lattice arc and step pair, and the T-parameter invariants; every paired control-vector case is replayed: split(t) control points (exact), reversed() (exact), cropped(t0,t1) for all dyadic t0<t1 by points (1e-9) incl. fold-back collinear and self-crossing curves; lattice arcs reversed/split/cropped at 15-degree steps on both sides of 180 degrees (1e-6); paths: open chains, closed polygons with wrap-around crops, crop points on joints and paths traversing an equal segment twice - start/end points, joined pieces, length = length(T0,T1), closed-form values on polylines.",
-   note="Trusted: TLC; exactness of float arithmetic on the dyadic integer lattice. Path crops on curved segments are compared with Path.length(T0,T1) (the property's own oracle), closed forms only on polylines.",
+   note="Trusted: TLC; exactness of float arithmetic on the dyadic integer lattice. Path crops on curved segments are compared with Path.length(T0,T1) (the property's own oracle), closed forms only on polylines. Open finding (printed as KNOWN-FINDING): a crop with one end on a joint and the other within 1e-8 of it returns whole segments.",
    ref="4 (C09), 3.5, 3.6, 3.8"),
  'C10': dict(
    technique="TLA+ models of SVG transform lists as integer affine matrices (Affine.tla) and of the joint re-joining pass (Rejoin.tla) model-checked with TLC; every product matrix and every joint pattern replayed through the real translated/rotated/scaled/transform; the underlying affine algebra (composition = composition of maps, associativity, det multiplicative, evaluation commutes with the map, area scales by det) proved for all integers with Apalache (spec/apalache/MC_Affine.tla)",
